@@ -23,7 +23,7 @@ VARIABLES plan,      \* episodes still to run: <<[query, calls]>>, a call is [mo
           calls,     \* calls still to make in the current episode
           cur,       \* the call in progress: [mode, got, fired] or NoCall
           tainted,   \* the current episode had a timeout: its later calls are unconstrained
-          reports,   \* one entry per finished call: [ep, mode, rep, want, ok]
+          reports,   \* one entry per finished call: [ep, mode, rep, want, free, ok]
           epno
 
 sesvars == <<plan, calls, cur, tainted, reports, epno>>
@@ -85,6 +85,7 @@ StartCall ==
 (* ---------------- next_solution() returned inside the call ---------------- *)
 Finish(rep, want, okv) ==
     /\ reports' = Append(reports, [ep |-> epno, mode |-> cur.mode, rep |-> rep, want |-> want,
+                                   free |-> tainted,            \* after a timeout of this query: unconstrained
                                    ok |-> tainted \/ okv])
     /\ cur' = NoCall
     /\ phase' = "idle"
